@@ -8,6 +8,7 @@ import (
 	"math/rand"
 	"reflect"
 	"sort"
+	"strconv"
 
 	"github.com/protolambda/zrnt/eth2/beacon/common"
 	"github.com/protolambda/ztyp/tree"
@@ -15,11 +16,33 @@ import (
 	"verifharness/internal/hreg"
 )
 
+// hexOrDash: hex with run-length compression — a run of 12 or more equal bytes is written `hh*N.` (the byte, `*`,
+// the decimal count, `.`). Nearly half of the encodings' bytes sit in long zero or 0xff runs (mandatory vectors of
+// the states, zero defaults, boundary values); both executors expand the runs before anything else (parseHex here,
+// parseHexRle in Zrnt.SSZ.Driver).
 func hexOrDash(b []byte) string {
 	if len(b) == 0 {
 		return "-"
 	}
-	return hex.EncodeToString(b)
+	const digits = "0123456789abcdef"
+	out := make([]byte, 0, 2*len(b))
+	for i := 0; i < len(b); {
+		j := i
+		for j < len(b) && b[j] == b[i] {
+			j++
+		}
+		if j-i >= 12 {
+			out = append(out, digits[b[i]>>4], digits[b[i]&15], '*')
+			out = strconv.AppendInt(out, int64(j-i), 10)
+			out = append(out, '.')
+		} else {
+			for k := i; k < j; k++ {
+				out = append(out, digits[b[k]>>4], digits[b[k]&15])
+			}
+		}
+		i = j
+	}
+	return string(out)
 }
 
 type emitter struct {
